@@ -213,6 +213,254 @@ theorem toSeq_append (n : Nat) (e o : Val) (p : TPath) (hp : ruleAt p = some .to
 example : mergeYaml 1 (.map [("B", .int 2), ("A", .null)]) (.seq [.str "B=3"]) ["services", "s", "environment"]
     = .ok (.seq [.str "A", .str "B=2", .str "B=3"]) := by rfl
 
+/-! ## 3b. The structured mergers: depends_on, networks, build, logging, extra_hosts, ipam pools -/
+
+theorem listIntoMap_names (dflt : Val) : ∀ (names : List String) (acc : KVs),
+    listIntoMap dflt (names.map Val.str) acc = .ok (names.foldl (fun m s => Val.insert s dflt m) acc) := by
+  intro names
+  induction names with
+  | nil => intro acc; rfl
+  | cons s r ih => intro acc; simp only [List.map_cons, listIntoMap, List.foldl_cons, ih]
+
+theorem lookup_foldl_insert (dflt : Val) (k : String) : ∀ (names : List String) (acc : KVs),
+    lookup k (names.foldl (fun m s => Val.insert s dflt m) acc) = if k ∈ names then some dflt else lookup k acc := by
+  intro names
+  induction names with
+  | nil => intro acc; simp
+  | cons s r ih =>
+    intro acc
+    simp only [List.foldl_cons, ih, List.mem_cons]
+    by_cases hr : k ∈ r
+    · simp [hr]
+    · by_cases hs : k = s
+      · subst hs; simp [hr, lookup_insert_self]
+      · simp [hr, hs, lookup_insert_ne hs]
+
+/-- **the list spelling of depends_on / networks is the mapping spelling with the default value**: `[a, b]` converts to
+the mapping that holds the default (`{condition: service_started, required: true}`, resp. null) at exactly `a` and `b` -/
+theorem list_spelling_is_default_mapping (dflt : Val) (names : List String) :
+    ∃ m, intoMap dflt (.seq (names.map Val.str)) = .ok m ∧ ∀ k, lookup k m = if k ∈ names then some dflt else none := by
+  refine ⟨names.foldl (fun m s => Val.insert s dflt m) [], ?_, ?_⟩
+  · simp only [intoMap, listIntoMap_names]
+  · intro k; rw [lookup_foldl_insert]; simp [lookup]
+
+/-- depends_on / networks / build: both sides are converted to mappings, then merged like mappings -/
+theorem converted_merge (n : Nat) (e o : Val) (p : TPath) (r : Rule) (conv : Val → Out KVs) (a b : KVs)
+    (hp : ruleAt p = some r)
+    (hr : (r = .dependsOn ∧ conv = intoMap dependsOnDefault) ∨ (r = .networks ∧ conv = intoMap .null) ∨ (r = .build ∧ conv = toBuild))
+    (ha : conv e = .ok a) (hb : conv o = .ok b) :
+    mergeYaml (n + 1) e o p = (mergeKVs n a b p).bind fun m => .ok (.map m) := by
+  rcases hr with ⟨rfl, rfl⟩ | ⟨rfl, rfl⟩ | ⟨rfl, rfl⟩ <;>
+    simp only [mergeYaml, mergeStep, hp, specialStep, convMerge, ha, hb, Out.bind, mergeKVs]
+
+/-- … hence **depends_on merges per dependency, per field, whichever spelling either side uses** (pointwise law on the
+converted mappings; a dependency only the base has is preserved, one only the override has is added) -/
+theorem dependsOn_pointwise (n : Nat) (e o : Val) (p : TPath) (a b m : KVs) (hp : ruleAt p = some .dependsOn)
+    (ha : intoMap dependsOnDefault e = .ok a) (hb : intoMap dependsOnDefault o = .ok b) (hnd : (keys b).Nodup)
+    (h : mergeYaml (n + 1) e o p = .ok (.map m)) (k : String) :
+    PointwiseAt (mergeYaml n) p k (lookup k a) (lookup k b) (lookup k m) := by
+  rw [converted_merge n e o p .dependsOn _ a b hp (.inl ⟨rfl, rfl⟩) ha hb] at h
+  cases hm : mergeKVs n a b p with
+  | ok m' =>
+    simp only [hm, Out.bind, Out.ok.injEq, Val.map.injEq] at h
+    subst h; exact merge_map_pointwise n a b m' p hnd hm k
+  | err e' => simp [hm, Out.bind] at h
+  | panic s => simp [hm, Out.bind] at h
+
+theorem serviceNetworks_pointwise (n : Nat) (e o : Val) (p : TPath) (a b m : KVs) (hp : ruleAt p = some .networks)
+    (ha : intoMap .null e = .ok a) (hb : intoMap .null o = .ok b) (hnd : (keys b).Nodup)
+    (h : mergeYaml (n + 1) e o p = .ok (.map m)) (k : String) :
+    PointwiseAt (mergeYaml n) p k (lookup k a) (lookup k b) (lookup k m) := by
+  rw [converted_merge n e o p .networks _ a b hp (.inr (.inl ⟨rfl, rfl⟩)) ha hb] at h
+  cases hm : mergeKVs n a b p with
+  | ok m' =>
+    simp only [hm, Out.bind, Out.ok.injEq, Val.map.injEq] at h
+    subst h; exact merge_map_pointwise n a b m' p hnd hm k
+  | err e' => simp [hm, Out.bind] at h
+  | panic s => simp [hm, Out.bind] at h
+
+/-- **build: a string is the context of a mapping**, then the two mappings merge key by key -/
+theorem build_pointwise (n : Nat) (e o : Val) (p : TPath) (a b m : KVs) (hp : ruleAt p = some .build)
+    (ha : toBuild e = .ok a) (hb : toBuild o = .ok b) (hnd : (keys b).Nodup)
+    (h : mergeYaml (n + 1) e o p = .ok (.map m)) (k : String) :
+    PointwiseAt (mergeYaml n) p k (lookup k a) (lookup k b) (lookup k m) := by
+  rw [converted_merge n e o p .build _ a b hp (.inr (.inr ⟨rfl, rfl⟩)) ha hb] at h
+  cases hm : mergeKVs n a b p with
+  | ok m' =>
+    simp only [hm, Out.bind, Out.ok.injEq, Val.map.injEq] at h
+    subst h; exact merge_map_pointwise n a b m' p hnd hm k
+  | err e' => simp [hm, Out.bind] at h
+  | panic s => simp [hm, Out.bind] at h
+
+theorem build_string_is_context (s : String) : toBuild (.str s) = .ok [("context", .str s)] := rfl
+
+example : mergeYaml 2 (.str "./dir") (.map [("dockerfile", .str "D")]) ["services", "s", "build"]
+    = .ok (.map [("context", .str "./dir"), ("dockerfile", .str "D")]) := by rfl
+
+example : mergeYaml 3 (.seq [.str "db"]) (.map [("db", .map [("condition", .str "service_healthy")]), ("mq", .map [("condition", .str "service_started")])])
+      ["services", "s", "depends_on"]
+    = .ok (.map [("db", .map [("condition", .str "service_healthy"), ("required", .bool true)]), ("mq", .map [("condition", .str "service_started")])]) := by rfl
+
+/-- logging: with the same driver on both sides (or a side that names none) the two sections merge key by key … -/
+theorem logging_same_driver_merges (n : Nat) (config other : KVs) (p : TPath) (hp : ruleAt p = some .logging)
+    (h : sameScalar ((lookup "driver" other).getD .null) ((lookup "driver" config).getD .null) = true ∨
+         lookup "driver" other = none ∨ lookup "driver" config = none) :
+    mergeYaml (n + 1) (.map config) (.map other) p = (mergeKVs n config other p).bind fun m => .ok (.map m) := by
+  simp only [mergeYaml, mergeStep, hp, specialStep, loggingStep, mergeKVs]
+  rcases h with h | h | h <;> simp [h]
+
+/-- … and an override that names another driver replaces the section -/
+theorem logging_other_driver_replaces (n : Nat) (config other : KVs) (p : TPath) (d c : Val) (hp : ruleAt p = some .logging)
+    (hd : lookup "driver" other = some d) (hc : lookup "driver" config = some c) (hne : sameScalar d c = false) :
+    mergeYaml (n + 1) (.map config) (.map other) p = .ok (.map other) := by
+  simp [mergeYaml, mergeStep, hp, specialStep, loggingStep, hd, hc, hne]
+
+/-- a malformed logging section is an error, never a panic (before the round-2 repair: `panic@override.mergeLogging`) -/
+theorem logging_wrong_kind_is_error (n : Nat) (e o : Val) (p : TPath) (hp : ruleAt p = some .logging)
+    (he : e ≠ .null) (ho : o ≠ .null) (h : (∀ a, e ≠ .map a) ∨ (∀ b, o ≠ .map b)) :
+    mergeYaml (n + 1) e o p = .err "cannotOverride" := by
+  simp only [mergeYaml, mergeStep, hp, specialStep, loggingStep]
+  rcases h with h | h
+  · cases e <;> first | exact absurd rfl he | exact absurd rfl (h _) | skip
+    all_goals (cases o <;> first | exact absurd rfl ho | rfl)
+  · cases o <;> first | exact absurd rfl ho | exact absurd rfl (h _) | skip
+    all_goals (cases e <;> first | exact absurd rfl he | rfl)
+
+theorem keepNew_mem (right : List Val) (v : Val) : ∀ l : List Val,
+    v ∈ keepNew right l ↔ v ∈ l ∧ right.any (fun x => sameScalar x v) = false := by
+  intro l
+  induction l with
+  | nil => simp [keepNew]
+  | cons w r ih =>
+    simp only [keepNew]
+    by_cases hw : right.any (fun x => sameScalar x w) = true
+    · simp only [hw, if_true, ih, List.mem_cons]
+      constructor
+      · rintro ⟨h1, h2⟩; exact ⟨.inr h1, h2⟩
+      · rintro ⟨h1 | h1, h2⟩
+        · subst h1; rw [hw] at h2; cases h2
+        · exact ⟨h1, h2⟩
+    · simp only [hw, Bool.false_eq_true, if_false, List.mem_cons, ih]
+      constructor
+      · rintro (h1 | ⟨h1, h2⟩)
+        · subst h1; exact ⟨.inl rfl, by simpa using hw⟩
+        · exact ⟨.inr h1, h2⟩
+      · rintro ⟨h1 | h1, h2⟩
+        · exact .inl h1
+        · exact .inr ⟨h1, h2⟩
+
+/-- **extra_hosts: the override's entries that the base does not already have are appended** — the base entries
+stay in front unchanged, nothing is invented, nothing the base has is repeated -/
+theorem extraHosts_appends_new (n : Nat) (e o : Val) (p : TPath) (hp : ruleAt p = some .extraHosts) :
+    mergeYaml (n + 1) e o p = .ok (.seq (seqOf e ++ keepNew (seqOf e) (seqOf o))) ∧
+    ∀ v, v ∈ keepNew (seqOf e) (seqOf o) ↔ v ∈ seqOf o ∧ (seqOf e).any (fun x => sameScalar x v) = false := by
+  refine ⟨by simp only [mergeYaml, mergeStep, hp, specialStep], fun v => keepNew_mem _ v _⟩
+
+example : mergeYaml 1 (.map [("h1", .str "10.0.0.1")]) (.seq [.str "h1=10.0.0.1", .str "h2=10.0.0.2"]) ["services", "s", "extra_hosts"]
+    = .ok (.seq [.str "h1=10.0.0.1", .str "h2=10.0.0.2"]) := by rfl
+
+theorem length_listSet {α : Type} : ∀ (l : List α) (i : Nat) (x : α), (listSet l i x).length = l.length
+  | [], _, _ => rfl
+  | _ :: _, 0, _ => rfl
+  | _ :: r, i + 1, x => by simp [listSet, length_listSet r i x]
+
+theorem getElem?_listSet_ne {α : Type} : ∀ (l : List α) (i j : Nat) (x : α), i ≠ j → (listSet l i x)[j]? = l[j]?
+  | [], _, _, _, _ => rfl
+  | _ :: _, 0, 0, _, h => absurd rfl h
+  | _ :: _, 0, j + 1, _, _ => by simp [listSet]
+  | _ :: _, i + 1, 0, _, _ => by simp [listSet]
+  | _ :: r, i + 1, j + 1, x, h => by
+    simp only [listSet, List.getElem?_cons_succ]
+    exact getElem?_listSet_ne r i j x (fun h' => h (by rw [h']))
+
+theorem ipamIndex_spec (s : Val) : ∀ (l : List KVs) (k i : Nat), ipamIndex s l k = some i →
+    ∃ m, l[i - k]? = some m ∧ k ≤ i ∧ sameScalar (subnetOf m) s = true := by
+  intro l
+  induction l with
+  | nil => intro k i h; simp [ipamIndex] at h
+  | cons m r ih =>
+    intro k i h
+    simp only [ipamIndex] at h
+    by_cases hs : sameScalar (subnetOf m) s = true
+    · simp only [hs, if_true, Option.some.injEq] at h
+      subst h; exact ⟨m, by simp, Nat.le_refl _, hs⟩
+    · simp only [hs, Bool.false_eq_true, if_false] at h
+      obtain ⟨m', h1, h2, h3⟩ := ih (k + 1) i h
+      refine ⟨m', ?_, by omega, h3⟩
+      have : i - k = (i - (k + 1)) + 1 := by omega
+      rw [this, List.getElem?_cons_succ]; exact h1
+
+/-- **ipam pools are never dropped**: the merged config has at least the base's pools … -/
+theorem ipam_no_pool_dropped (mk : KVs → KVs → TPath → Out KVs) (p : TPath) : ∀ (lefts cfgs r : List KVs),
+    ipamFold mk cfgs lefts p = .ok r → cfgs.length ≤ r.length := by
+  intro lefts
+  induction lefts with
+  | nil => intro cfgs r h; simp only [ipamFold, Out.ok.injEq] at h; subst h; exact Nat.le_refl _
+  | cons left rest ih =>
+    intro cfgs r h
+    simp only [ipamFold] at h
+    cases hi : ipamIndex (subnetOf left) cfgs 0 with
+    | none =>
+      simp only [hi] at h
+      have := ih _ _ h
+      simp only [List.length_append, List.length_singleton] at this; omega
+    | some i =>
+      simp only [hi] at h
+      cases hm : mk (cfgs[i]?.getD []) left p with
+      | ok m =>
+        simp only [hm, Out.bind] at h
+        have := ih _ _ h
+        rw [length_listSet] at this; exact this
+      | err e => simp [hm, Out.bind] at h
+      | panic s => simp [hm, Out.bind] at h
+
+/-- … and **a pool whose subnet the override does not mention is preserved unchanged, at its position**
+(before the round-2 rewrite of `mergeIPAMConfig`: base `[A]` + override `[B]` = `[B]`, see `Neg/C04.lean`) -/
+theorem ipam_unmentioned_pool_preserved (mk : KVs → KVs → TPath → Out KVs) (p : TPath) (i : Nat) (c : KVs) :
+    ∀ (lefts cfgs r : List KVs), cfgs[i]? = some c →
+      (∀ l ∈ lefts, sameScalar (subnetOf c) (subnetOf l) = false) →
+      ipamFold mk cfgs lefts p = .ok r → r[i]? = some c := by
+  intro lefts
+  induction lefts with
+  | nil => intro cfgs r hc _ h; simp only [ipamFold, Out.ok.injEq] at h; subst h; exact hc
+  | cons left rest ih =>
+    intro cfgs r hc hno h
+    have hrest : ∀ l ∈ rest, sameScalar (subnetOf c) (subnetOf l) = false := fun l hl => hno l (by simp [hl])
+    simp only [ipamFold] at h
+    cases hi : ipamIndex (subnetOf left) cfgs 0 with
+    | none =>
+      simp only [hi] at h
+      refine ih _ _ ?_ hrest h
+      rw [List.getElem?_append_left]
+      · exact hc
+      · exact (List.getElem?_eq_some_iff.mp hc).1
+    | some j =>
+      simp only [hi] at h
+      cases hm : mk (cfgs[j]?.getD []) left p with
+      | ok m =>
+        simp only [hm, Out.bind] at h
+        refine ih _ _ ?_ hrest h
+        have hji : j ≠ i := by
+          intro hji; subst hji
+          obtain ⟨m', h1, _, h3⟩ := ipamIndex_spec _ _ _ _ hi
+          simp only [Nat.sub_zero] at h1
+          rw [hc] at h1; cases h1
+          rw [hno left (by simp)] at h3; cases h3
+        rw [getElem?_listSet_ne _ _ _ _ hji]; exact hc
+      | err e => simp [hm, Out.bind] at h
+      | panic s => simp [hm, Out.bind] at h
+
+/-- a pool with a new subnet is appended -/
+theorem ipam_new_pool_appended (mk : KVs → KVs → TPath → Out KVs) (p : TPath) (cfgs : List KVs) (left : KVs)
+    (h : ipamIndex (subnetOf left) cfgs 0 = none) : ipamFold mk cfgs [left] p = .ok (cfgs ++ [left]) := by
+  simp [ipamFold, h]
+
+/-- a pool with the subnet of an existing pool is merged into that pool, in place -/
+theorem ipam_same_subnet_merged (mk : KVs → KVs → TPath → Out KVs) (p : TPath) (cfgs : List KVs) (left m : KVs) (i : Nat)
+    (h : ipamIndex (subnetOf left) cfgs 0 = some i) (hm : mk (cfgs[i]?.getD []) left p = .ok m) :
+    ipamFold mk cfgs [left] p = .ok (listSet cfgs i m) := by
+  simp [ipamFold, h, hm, Out.bind]
+
 /-! ## 4. `enforceUnicity`: one entry per key, the later one wins, the first position is kept -/
 
 /-- after unicity no two entries share a key -/
